@@ -1,26 +1,14 @@
 // The Go port of the Python lexer keeps its token queue and indentation stack in package-level
 // variables of languages/python (python_base_lexer.go: buffer, indents), so the result of a parse
-// depends on what the process has parsed before. The generated reset hooks cover /repo/pkg only.
-// Until a hook for languages/python exists, the two variables are reached through go:linkname so
-// that every case starts from the state of a fresh process (which is also what a replay sees).
+// depends on what the process has parsed before. Every case starts from the state of a fresh
+// process (which is also what a replay sees) through the verif reset hook of that package.
 package c20
 
 import (
-	_ "unsafe"
-
-	"github.com/antlr/antlr4/runtime/Go/antlr/v4"
-	_ "github.com/modernizing/coca/languages/python"
-	"github.com/modernizing/coca/pkg/infrastructure/container"
+	pyparser "github.com/modernizing/coca/languages/python"
 )
-
-//go:linkname pyLexerBuffer github.com/modernizing/coca/languages/python.buffer
-var pyLexerBuffer []antlr.Token
-
-//go:linkname pyLexerIndents github.com/modernizing/coca/languages/python.indents
-var pyLexerIndents *container.Stack
 
 // resetPythonLexer puts the lexer's package-level state back to what init() of languages/python sets.
 func resetPythonLexer() {
-	pyLexerBuffer = make([]antlr.Token, 32)
-	pyLexerIndents = container.NewStack()
+	pyparser.VerifResetPython()
 }
